@@ -24,6 +24,7 @@ type Collection struct {
 	byId map[string]*item
 	// "change" events contain a *CollectionChange instance
 	bus minibus.Bus
+	pub publishQueue // orders bus sends by commit order
 }
 
 func NewCollection(options ...Option) *Collection {
@@ -106,6 +107,7 @@ func (c *Collection) Update(id string, msg proto.Message, opts ...WriteOption) (
 	}
 
 	var created proto.Message // during create, this is returned by GetFn so concurrent reference checks pass
+	var ticket uint64
 	oldValue, newValue, err := GetAndUpdate(
 		&c.mu,
 		func() (item proto.Message, err error) {
@@ -147,6 +149,7 @@ func (c *Collection) Update(id string, msg proto.Message, opts ...WriteOption) (
 		writeRequest.changeFn(writer, msg),
 		func(msg proto.Message) {
 			c.byId[id] = &item{body: msg, changeTime: writeRequest.updateTime(c.clock)}
+			ticket = c.pub.enqueue()
 		})
 
 	if err != nil {
@@ -161,12 +164,15 @@ func (c *Collection) Update(id string, msg proto.Message, opts ...WriteOption) (
 		oldValue = nil
 	}
 	verifhook.At("col.update.beforePublish", &c.mu, newValue)
-	c.bus.Send(context.TODO(), &CollectionChange{
-		Id:         id,
-		ChangeTime: writeRequest.updateTime(c.clock),
-		ChangeType: changeType,
-		OldValue:   oldValue,
-		NewValue:   newValue,
+	// events are published in commit order, a concurrent writer that committed before us publishes first
+	c.pub.publish(ticket, func() {
+		c.bus.Send(context.TODO(), &CollectionChange{
+			Id:         id,
+			ChangeTime: writeRequest.updateTime(c.clock),
+			ChangeType: changeType,
+			OldValue:   oldValue,
+			NewValue:   newValue,
+		})
 	})
 	return newValue, nil
 }
@@ -216,13 +222,17 @@ func (c *Collection) Delete(id string, opts ...WriteOption) (proto.Message, erro
 		// actually do the delete
 		delete(c.byId, id)
 		verifhook.At("col.delete.committed", &c.mu, id)
-		c.bus.Send(context.TODO(), &CollectionChange{
-			Id:         id,
-			ChangeTime: c.clock.Now(),
-			ChangeType: types.ChangeType_REMOVE,
-			OldValue:   oldVal.body,
-		})
+		ticket := c.pub.enqueue()
 		c.mu.Unlock()
+		// published after the lock is released, in commit order with concurrent writers
+		c.pub.publish(ticket, func() {
+			c.bus.Send(context.TODO(), &CollectionChange{
+				Id:         id,
+				ChangeTime: c.clock.Now(),
+				ChangeType: types.ChangeType_REMOVE,
+				OldValue:   oldVal.body,
+			})
+		})
 		return oldVal.body, nil
 	}
 
